@@ -15,6 +15,7 @@ extern template void run_mixed<double> ();
 } // namespace c05
 
 void c05_alias_stage ();
+void c05_dirty_stage (); // c05_dirty.cpp
 
 int main (int argc, char** argv)
 {
@@ -29,6 +30,7 @@ int main (int argc, char** argv)
     c05::run_rounding<float> ();
     c05::run_rounding<double> ();
     c05_alias_stage ();
+    c05_dirty_stage ();
     c05::run_mixed<float> ();
     c05::run_mixed<double> ();
     c05::run_intvec ();
